@@ -122,7 +122,7 @@ def model_used(project):
 def run(tier, seed, replay=None):
     res = Result("C20", tier, seed, RULE)
     rng = rng_for(seed, "C20")
-    n = 300 if tier == "quick" else 4000
+    n = 300 if tier == "quick" else 30000
     cfg = GenCfg(p_plural=0, p_range=0.1, p_fk=0.2, p_sub=0.25, namespaces=0.45, n_locales=(1, 4), p_null=0.05, p_absent=0.1, p_surplus=0.2)
     projs, labels = [], []
     for i in range(n):
